@@ -141,6 +141,16 @@ RUN_ORDER = {"shuffle": None}  # set to a permutation function by a foreign writ
 
 def enc_segmented(mask, data, rec):
     runs = _runs(mask)
+    if RUN_ORDER.get("split"):
+        # another writer's run table: a stretch of present frames stored as two runs that touch
+        runs2 = []
+        for s0, n0 in runs:
+            if n0 >= 2:
+                k = 1 + (s0 + n0) % (n0 - 1)
+                runs2 += [(s0, k), (s0 + k, n0 - k)]
+            else:
+                runs2.append((s0, n0))
+        runs = runs2
     if len(data) != rec * mask.count("1"):
         raise LayoutError("data length does not match mask")
     blobs, p = [], 0
@@ -194,13 +204,14 @@ def dec_segmented(r, nframes, rec):
 # blocks
 
 
-def encode(C, run_order=None):
+def encode(C, run_order=None, split_runs=False):
     """run_order: None = canonical (ascending runs); a function list->list = the order in which a
     foreign writer lists the runs of each track (the format does not prescribe one)."""
+    RUN_ORDER["split"] = split_runs
     if run_order is not None:
         RUN_ORDER["shuffle"] = run_order
         try:
-            return encode(C)
+            return encode(C, split_runs=split_runs)
         finally:
             RUN_ORDER["shuffle"] = None
     t = C["t"]
@@ -478,7 +489,7 @@ class Image:
 
 
 def build_image(n, slots, hdr_dates=(1000000000, 1000000000, 1000000000), garbage=None,
-                layout="compact", version=1, unused_fmt=None):
+                layout="compact", version=1, unused_fmt=None, unused_off=None):
     """Foreign file written by the reference encoder.
 
     slots: list (len <= n) of dicts {type, fmt, payload(bytes), cdate, mdate, adate, comment}
@@ -509,7 +520,9 @@ def build_image(n, slots, hdr_dates=(1000000000, 1000000000, 1000000000), garbag
     out = bytearray(enc_header(n, *hdr_dates, version=version, res1=g(8), res2=g(20)))
     for i, s in enumerate(slots):
         if s is None:
-            out += enc_entry(0, (unused_fmt * (i + 1)) % 4 if unused_fmt else 0, end, 0, hdr_dates[0], hdr_dates[1], hdr_dates[2], "",
+            uo = {None: end, "zero": 0, "neg": -5 - i, "inside": table_end + 3 + i, "beyond": end + 1000 + 8 * i,
+                  "table": HEADER + 7}[unused_off]
+            out += enc_entry(0, (unused_fmt * (i + 1)) % 4 if unused_fmt else 0, uo, 0, hdr_dates[0], hdr_dates[1], hdr_dates[2], "",
                              pad=g(4), tail=g(256) if garbage else None)
         else:
             out += enc_entry(s["type"], s["fmt"], offs[i], len(s["payload"]), s["cdate"],
